@@ -963,6 +963,26 @@ func (k Keeper) FilterServiceProviders(
 	return newProviders, totalPrices, "", nil
 }
 
+// GetTotalServiceFees returns the sum of the prices, with the time and volume discounts
+// applied, that the given providers charge the consumer: the sum of the service fees
+// recorded on the requests of one batch
+func (k Keeper) GetTotalServiceFees(
+	ctx sdk.Context,
+	serviceName string,
+	providers []sdk.AccAddress,
+	consumer sdk.AccAddress,
+) sdk.Coins {
+	var total sdk.Coins
+
+	for _, provider := range providers {
+		if binding, found := k.GetServiceBinding(ctx, serviceName, provider); found {
+			total = total.Add(k.GetPrice(ctx, consumer, binding)...)
+		}
+	}
+
+	return total
+}
+
 // DeductServiceFees deducts the given service fees from the specified consumer
 func (k Keeper) DeductServiceFees(
 	ctx sdk.Context,
